@@ -186,7 +186,7 @@ def c05_malformed(ctx, p):
 def c05_pipeline(ctx, p):
     """the same decision through the real clean: which attribute is read, which offset is appended, what the registry does"""
     cfg = props_pipe.base_cfg(tl_offset=list(p['offset'].encode()), now=p['now'])
-    src = list(("A<t a='2001-01-01 00:00:00' to='" + p['to'] + "' b='1999-01-01 00:00:00'>q</t>B").encode())
+    src = list(("A<t a='2001-01-01 00:00:00' " + p.get('extra', '') + "to='" + p['to'] + "' b='1999-01-01 00:00:00'>q</t>B").encode())
     out = ctx.impl.clean(src, [60], [62], cfg)
     if p['expect']:
         ctx.cover('removed')
@@ -229,4 +229,8 @@ def c05_jobs(tier, seed):
                 if tier == 'quick' and dn == 1:
                     continue
                 J('c05_pipeline', f'pipeline to={to} offset={off} now=deadline{dn:+d}s', to=to, offset=off, now=e + dn, expect=exp)
+        for extra in ("c='été 2023' ", "c=é ", "日付='x' "):
+            e = inst(to, '+09:00')
+            for dn, exp in ((-1, False), (0, True)):
+                J('c05_pipeline', f'pipeline non-ASCII attribute before to: {extra!r} to={to} now=deadline{dn:+d}s', to=to, offset='+09:00', now=e + dn, expect=exp, extra=extra)
     return jobs
